@@ -34,7 +34,7 @@ ANCHORS = [(_S + "base_selector.py", "BaseSelector._select_features"), (_S + "ba
            (_S + "measures/qualitative_measures.py", "cramerv_measure"), (_S + "measures/base_measures.py", "mode_measure")]
 DECIDING_ANCHORS = [(_S + "base_selector.py", "BaseSelector._select_features"), (_S + "filters/quantitative_filters.py", "quantitative_filter"),
                     (_S + "filters/qualitative_filters.py", "qualitative_worst_corr")]
-N = {"quick": 600, "thorough": 16000}
+N = {"quick": 1000, "thorough": 16000}
 REQUIRED_COUNTERS = {"quick": {"selections": 250, "blocks_validated": 400, "features_left_out_checked": 500, "library_values_compared": 1500, "correlated_pairs_seen": 100},
                      "thorough": {"selections": 5000, "blocks_validated": 8000, "features_left_out_checked": 10000, "library_values_compared": 30000, "correlated_pairs_seen": 2000}}
 TOL = 1e-9
